@@ -63,7 +63,7 @@ def run_fault_scenario(seed, sc, ctx, workdir, replay_tape=None):
         res["events_sha"] = canon.sha(ref.front)
         return res
     r = random.Random(sc["aux_seed"])
-    kind = r.choice(["job", "job", "job_memerr", "svg"])
+    kind = r.choice(["job", "job_death", "job_memerr", "svg"])
     cfg = dict(sc["runs"][0])
     if cfg["W"] == 1:
         cfg["W"] = 2  # job faults need the executor seam
@@ -76,9 +76,8 @@ def run_fault_scenario(seed, sc, ctx, workdir, replay_tape=None):
         if state["fired"] is None and rec.index == n_calls_target % max(1, state.get("ncalls", 14)) \
                 and i == job_target % rec.n_jobs:
             state["fired"] = (rec.index, rec.site, i)
-            if kind == "job_memerr":
-                return ex.InjectedMemoryError(f"injected: MemoryError in job {i} of {rec.site}")
-            return ex.InjectedWorkerDeath(f"injected: worker died in job {i} of {rec.site}")
+            fk = {"job": "exception", "job_death": "worker_death", "job_memerr": "memory"}[kind]
+            return ex.make_fault(fk, f"{fk} in job {i} of {rec.site}")
         return None
 
     tape = C._mk_tape(cfg, replay=replay_tape)
